@@ -37,6 +37,7 @@ inductive Res where
   | bytes (n : Nat)      -- recv / recv_stderr returned n bytes
   | sockClosed           -- socket.error("Socket is closed")
   | timeout              -- socket.timeout
+  | sshError             -- SSHException out of transport._send_user_message (e.g. re-keying timed out)
   | doneAll (handed total : Nat)   -- sendall returned None; ghosts: bytes this call handed over / was given
   deriving Repr, DecidableEq
 
@@ -93,6 +94,7 @@ structure St where
   recvd       : Nat         -- ghost: Σ data bytes delivered by the peer (all types)
   consumed    : Nat         -- ghost: Σ bytes returned by recv/recv_stderr
   discarded   : Nat         -- ghost: Σ bytes of extended data of unknown type thrown away
+  leaked      : Nat         -- ghost: Σ data bytes reserved from the window whose _send_user_message raised
   raced       : Bool        -- ghost: EOF was decided while some thread still held unsent data
   deriving Repr
 
@@ -107,7 +109,7 @@ def init (inWin peerWin peerMax nthr : Nat) (combine : Bool) : St :=
   { active := true, closed := false, eofSent := false, eofRecv := false, linked := true, combine := combine,
     pipesClosed := false, outWin := peerWin, maxPkt := sanitizePkt peerMax, inThreshold := inWin / 10,
     inSofar := 0, inBuf := 0, errBuf := 0, mode := .blocking, thr := List.replicate nthr (.idle .none),
-    wire := [], granted := peerWin, recvd := 0, consumed := 0, discarded := 0, raced := false }
+    wire := [], granted := peerWin, recvd := 0, consumed := 0, discarded := 0, leaked := 0, raced := false }
 
 inductive Act where
   | send (t n : Nat) (ext : Bool)        -- send / send_stderr of n bytes: the lock region of _send
@@ -115,6 +117,7 @@ inductive Act where
   | iter (t : Nat)                       -- sendall: one `self.send(s)` — its lock region
   | wake (t dt : Nat)                    -- out_buffer_cv.wait returns, dt clock ticks after it started
   | emit (t : Nat)                       -- the thread's next _send_user_message
+  | emitFail (t : Nat)                   -- … which raises SSHException instead of writing (transport still alive)
   | recv (t k : Nat) (err : Bool)        -- recv / recv_stderr(k): the pipe read
   | check (t : Nat)                      -- … its _check_add_window lock region
   | close (t : Nat)                      -- Channel.close: lock region
@@ -147,6 +150,14 @@ def Msg.isData : Msg → Bool
   | .data _ => true
   | .ext _ => true
   | _ => false
+
+def dataSum : List Msg → Nat
+  | [] => 0
+  | m :: ms => m.dataLen + dataSum ms
+
+def adjSum : List Msg → Nat
+  | [] => 0
+  | m :: ms => m.adjLen + adjSum ms
 
 /-- state a thread is in once everything it held has been written -/
 def kontState : Kont → TSt
@@ -254,6 +265,13 @@ def step (cfg : Cfg) (s : St) : Act → St
     match s.thr[t]? with
     | some (.hold (m :: ms) k) => holdOrDone { s with wire := s.wire ++ [m] } t ms k
     | _ => s
+  | .emitFail t =>
+    -- the exception propagates out of the API call: nothing is written, the remaining messages of this call are
+    -- never sent, and a reserved piece of window is NOT handed back (it is simply lost)
+    match s.thr[t]? with
+    | some (.hold (m :: ms) _) =>
+      setThr { s with leaked := s.leaked + dataSum (m :: ms) } t (.idle .sshError)
+    | _ => s
   | .recv t k err =>
     if idleOf s t then
       let buf := if err then s.errBuf else s.inBuf
@@ -316,14 +334,6 @@ def step (cfg : Cfg) (s : St) : Act → St
 def run (cfg : Cfg) (s : St) (as : List Act) : St := as.foldl (step cfg) s
 
 /-! ## observables -/
-
-def dataSum : List Msg → Nat
-  | [] => 0
-  | m :: ms => m.dataLen + dataSum ms
-
-def adjSum : List Msg → Nat
-  | [] => 0
-  | m :: ms => m.adjLen + adjSum ms
 
 /-- bytes a thread has reserved (or read) but not yet put on the wire / accounted -/
 def TSt.heldData : TSt → Nat
